@@ -1,11 +1,12 @@
 #!/bin/bash
-# intake.sh <PID> [items...]: confirm /tmp/agents/<PID>/<item> (default: m6 m7 t3 t4) and file them under /verif/seeded and /verif/twins
+# intake.sh <PID> [items...]: confirm $AGENTS_DIR/<PID>/<item> (AGENTS_DIR default /tmp/agents; items default: m6 m7 t3 t4) and file them under /verif/seeded and /verif/twins
 P=$1; shift
+A=${AGENTS_DIR:-/tmp/agents}
 ITEMS=${@:-m6 m7 t3 t4}
 for i in $ITEMS; do
-  [ -f /tmp/agents/$P/$i/patch.diff ] || continue
+  [ -f $A/$P/$i/patch.diff ] || continue
   case $i in
-    m*) [ -d /verif/seeded/$P-$i ] || /venv/bin/python /verif/tools/confirm_seed.py /tmp/agents/$P/$i $P-$i $P 2>&1 | grep -v conda;;
-    t*) [ -f /verif/twins/$P-$i.diff ] || /venv/bin/python /verif/tools/confirm_twin.py /tmp/agents/$P/$i $P-$i 2>&1 | grep -v conda;;
+    m*) [ -d /verif/seeded/$P-$i ] || /venv/bin/python /verif/tools/confirm_seed.py $A/$P/$i $P-$i $P 2>&1 | grep -v conda;;
+    t*) [ -f /verif/twins/$P-$i.diff ] || /venv/bin/python /verif/tools/confirm_twin.py $A/$P/$i $P-$i 2>&1 | grep -v conda;;
   esac
 done
